@@ -299,8 +299,16 @@ def rel_pred(draw, depth, cfg):
     if depth > 0 and c < 22:
         return ("bool", draw(st.sampled_from(["and", "or"])), draw(rel_pred(depth - 1, cfg)),
                 draw(rel_pred(depth - 1, cfg)))
-    if depth > 0 and c < 30:
+    if depth > 0 and c < 27:
         return ("un", "not", draw(rel_pred(depth - 1, cfg)))
+    if depth > 0 and c < 30:
+        # a negated conjunction of a to-one path comparison and a plain comparison (no or / null / lambda
+        # anywhere): true for a parent whose foreign key is NULL as soon as the plain conjunct is false
+        segs, tm = draw(st.sampled_from(sorted(TO_ONE_PATHS.items())))
+        a = draw(scalar_cmp(list(segs), tm))
+        b = draw(scalar_cmp([], "Item", ["i1", "i2", "s1", "k"]))
+        pair = (a, b) if draw(st.booleans()) else (b, a)
+        return ("un", "not", ("bool", "and", pair[0], pair[1]))
     if c < 45:
         return draw(scalar_cmp([], "Item", ["i1", "i2", "s1", "k"]))
     if c < 65:
